@@ -305,7 +305,7 @@ Theorem C18_y2l_l2y_topology : forall top t2 es,
   jget K_elements top = Some (JArr es) -> Forall ETS es ->
   chain topo_struct top = Ok t2 ->
   legacy_nulls_ok (JObj t2) = true -> doc_ok (prec TOPO_NMSP) (JObj t2) = true ->
-  remove_ns "gnpy-network-topology:" (JObj top) = JObj top ->
+  remove_ns "gnpy-network-topology:" (JObj t2) = JObj t2 ->
   exists y, legacy_to_yang (JObj top) = Ok y /\ yang_to_legacy y = Ok (JObj top).
 Proof. exact y2l_l2y_topology. Qed.
 Print Assumptions C18_y2l_l2y_topology.
